@@ -1,6 +1,7 @@
 (* C04 — complex arithmetic is correctly rounded per component (add, sub, mul, square(re), z*x, z+x; exact equality).
    Division family and powers are decided per instance by the exact-rational oracle of the check. *)
 From Coq Require Import ZArith Reals.
+From Flocq Require Import Core.
 From MP Require Import Algo.Base Algo.Libmpf Algo.Libmpc Spec.Mpf Spec.Round Proofs.Cplx.
 Open Scope Z_scope.
 
@@ -26,3 +27,36 @@ Theorem C04_square_re : forall z prec r, cfin z -> 0 < prec ->
 Proof. exact mpc_square_re. Qed.
 Theorem C04_eq_exact : forall z w, mpc_eqb z w = true <-> z = w.
 Proof. exact mpc_eqb_spec. Qed.
+
+(* division: exact structural statement and an error bound relative to the modulus |z|/|w| *)
+From MP Require Import Proofs.CplxDiv.
+Theorem C04_div : forall z w prec r, cfin z -> cfin w -> (0 < cabs2 w)%R -> 0 < prec ->
+  exists q, mpc_div z w prec r = Ok q /\ cfin q /\
+    let wp := prec + 10 in
+    let M := RND RD wp (cre w * cre w + cim w * cim w) in
+    cre q = RND r prec (RND RD wp (cre z * cre w + cim z * cim w) / M) /\
+    cim q = RND r prec (RND RD wp (cim z * cre w - cre z * cim w) / M) /\
+    (Rabs (cre q - (cre z * cre w + cim z * cim w) / cabs2 w) <= 3 * bpow radix2 (- prec + 1) * sqrt (cabs2 z / cabs2 w))%R /\
+    (Rabs (cim q - (cim z * cre w - cre z * cim w) / cabs2 w) <= 3 * bpow radix2 (- prec + 1) * sqrt (cabs2 z / cabs2 w))%R.
+Proof. exact mpc_div_spec. Qed.
+Print Assumptions C04_div.
+
+(* modulus *)
+From MP Require Import Proofs.CplxAbs.
+Theorem C04_abs : forall x y prec r, fincanon x -> fincanon y -> (rv x <> 0)%R -> (rv y <> 0)%R -> 0 < prec ->
+  exists v, mpf_hypot x y prec r = Ok v /\
+    rv v = RND r prec (sqrt (RND RD (prec + 4) (rv x * rv x + rv y * rv y))) /\
+    (Rabs (rv v - sqrt (rv x * rv x + rv y * rv y)) <= 3 * bpow radix2 (- prec) * sqrt (rv x * rv x + rv y * rv y))%R.
+Proof. exact mpf_hypot_spec. Qed.
+
+(* reciprocal *)
+From MP Require Import Proofs.CplxRecip.
+Theorem C04_reciprocal : forall z prec r, cfin z -> (0 < cabs2 z)%R -> 0 < prec ->
+  exists q, mpc_reciprocal z prec r = Ok q /\ cfin q /\
+    let M := RND RD (prec + 10) (cre z * cre z + cim z * cim z) in
+    cre q = RND r prec (cre z / M) /\ cim q = (- RND r prec (cim z / M))%R /\
+    (Rabs (cre q - cre z / cabs2 z) <= 3 * bpow radix2 (- prec + 1) * sqrt (/ cabs2 z))%R /\
+    (Rabs (cim q - (- cim z) / cabs2 z) <= 3 * bpow radix2 (- prec + 1) * sqrt (/ cabs2 z))%R.
+Proof. exact mpc_reciprocal_spec. Qed.
+Example C04_div_witness : mpc_div (fone, fone) (fone, Mpf 1 1 0 1) 53 RN = Ok (fzero, fone).   (* (1+i)/(1-i) = i *)
+Proof. vm_compute. reflexivity. Qed.
